@@ -194,12 +194,17 @@ class FakeSemaphore:
 
 
 class FakeQueue:
-    def __init__(self, sched):
+    def __init__(self, sched, maxsize=0):
         self.sched = sched
         self.items = []
+        self.maxsize = maxsize
 
     def put(self, item):
-        self.sched.yield_point("queue.put")
+        if self.maxsize and self.maxsize > 0:
+            # a bounded queue: put() blocks while the queue is full
+            self.sched.yield_point("queue.put", pred=lambda: len(self.items) < self.maxsize)
+        else:
+            self.sched.yield_point("queue.put")
         self.items.append(item)
 
     def get(self):
